@@ -22,17 +22,17 @@ package routing
 
 //@ func LumpedConstituentTransport(inflowLoads, lateralLoads, outflows, storage, initialStoredMass, x, pointInput, deltaT, outflowLoads, pointSourceLoad) returns (rStored)
 //@   noalias
-//@   nullable pointSourceLoad
+//@   nullable lateralLoads, pointSourceLoad
 //@   safety C12
-//@   requires inflowLoads.len == lateralLoads.len && inflowLoads.len == outflows.len && inflowLoads.len == storage.len && inflowLoads.len == outflowLoads.len
+//@   requires implies(lateralLoads != nil, inflowLoads.len == lateralLoads.len) && inflowLoads.len == outflows.len && inflowLoads.len == storage.len && inflowLoads.len == outflowLoads.len
 //@   requires implies(pointSourceLoad != nil, pointSourceLoad.len == inflowLoads.len)
-//@   requires forall(k, 0, inflowLoads.len, inflowLoads.at(k) >= 0 && lateralLoads.at(k) >= 0 && outflows.at(k) >= 0 && storage.at(k) >= 0)
+//@   requires forall(k, 0, inflowLoads.len, inflowLoads.at(k) >= 0 && implies(lateralLoads != nil, lateralLoads.at(k) >= 0) && outflows.at(k) >= 0 && storage.at(k) >= 0)
 //@   requires pointInput >= 0 && deltaT > 0 && initialStoredMass >= 0
 //@   assigns outflowLoads.cells, pointSourceLoad.cells
 //@   loop 0 invariant 0 <= i && i <= nDays
-//@   loop 0 invariant implies(i < nDays, inflowLoads.at(i) >= 0 && lateralLoads.at(i) >= 0 && outflows.at(i) >= 0 && storage.at(i) >= 0)
+//@   loop 0 invariant implies(i < nDays, inflowLoads.at(i) >= 0 && implies(lateralLoads != nil, lateralLoads.at(i) >= 0) && outflows.at(i) >= 0 && storage.at(i) >= 0)
 //@   loop 0 invariant [C12.lumped-nonneg] storedMass >= 0
-//@   loop 0 step [C12.lumped-balance] implies(outflows.at(i)*deltaT + storage.at(i) >= 0.01, pre(storedMass) + (inflowLoads.at(i) + lateralLoads.at(i) + pointInput)*deltaT == post(storedMass) + outflowLoads.at(i)*deltaT)
+//@   loop 0 step [C12.lumped-balance] implies(outflows.at(i)*deltaT + storage.at(i) >= 0.01, pre(storedMass) + (inflowLoads.at(i) + ite(lateralLoads != nil, lateralLoads.at(i), 0.0) + pointInput)*deltaT == post(storedMass) + outflowLoads.at(i)*deltaT)
 //@   loop 0 step [C12.lumped-flush] implies(outflows.at(i)*deltaT + storage.at(i) < 0.01, post(storedMass) == 0 && outflowLoads.at(i) == 0)
 //@   loop 0 step [C12.lumped-load-nonneg] outflowLoads.at(i) >= 0
 //@   ensures [C12.lumped-final-nonneg] rStored >= 0
@@ -54,3 +54,60 @@ package routing
 //@   loop 0 step [C12.decay-balance] implies(outflows.at(day)*deltaT + storage.at(day) >= 0.01, pre(storedMass) + (inflowLoads.at(day) + lateralLoads.at(day))*deltaT == post(storedMass) + outflowLoads.at(day)*deltaT + decayedLoad.at(day)*deltaT)
 //@   loop 0 step [C12.decay-flush] implies(outflows.at(day)*deltaT + storage.at(day) < 0.01, post(storedMass) == 0 && outflowLoads.at(day) == 0)
 //@   loop 0 step [C12.decay-load-nonneg] outflowLoads.at(day) >= 0 && decayedLoad.at(day) >= 0
+
+// ---- C12: in-stream coarse sediment: everything is deposited in the channel store ----
+
+//@ func instreamCoarseSediment(upstreamMass, lateralMass, reachLocalMass, channelStore, storedMass, deltaT, loadDownstream) returns (rChannel, rStored)
+//@   noalias
+//@   safety C12
+//@   requires upstreamMass.len == lateralMass.len && upstreamMass.len == reachLocalMass.len && upstreamMass.len == loadDownstream.len
+//@   requires forall(k, 0, upstreamMass.len, upstreamMass.at(k) >= 0 && lateralMass.at(k) >= 0 && reachLocalMass.at(k) >= 0)
+//@   requires deltaT > 0 && channelStore >= 0 && storedMass >= 0
+//@   assigns loadDownstream.cells
+//@   loop 0 invariant 0 <= i && i <= n
+//@   loop 0 invariant implies(i < n, upstreamMass.at(i) >= 0 && lateralMass.at(i) >= 0 && reachLocalMass.at(i) >= 0)
+//@   loop 0 invariant [C12.coarse-nonneg] channelStore >= 0 && storedMass >= 0
+//@   loop 0 step [C12.coarse-balance] pre(storedMass) + pre(channelStore) + (upstreamMass.at(i) + lateralMass.at(i) + reachLocalMass.at(i))*deltaT == post(storedMass) + post(channelStore) + loadDownstream.at(i)*deltaT
+//@   loop 0 step [C12.coarse-all-deposited] loadDownstream.at(i) == 0 && post(storedMass) == 0
+
+// ---- C12: in-stream fine sediment (bank-full flow > 0: flood-plain deposition, channel
+// deposition / remobilisation, lumped transport of what is left) ----
+
+//@ spec fineMaxStorage(propBankHeightForFineDep real, bankHeight real, linkWidth real, linkLength real, sedBulkDensity real) real = propBankHeightForFineDep * bankHeight * (linkWidth * linkLength) * sedBulkDensity * 1000.0
+
+//@ func instreamFineSediment(upstreamMass, lateralMass, reachLocalMass, reachVolume, outflow, channelStoreFine, totalStoredMass, bankFullFlow, fineSedSettVelocityFlood, floodPlainArea, linkWidth, linkLength, linkSlope, bankHeight, propBankHeightForFineDep, sedBulkDensity, manningsN, fineSedSettVelocity, fineSedReMobVelocity, durationInSeconds, loadDownstream, loadToFloodplain, loadToChannelDeposition, floodplainDepositionFraction, channelDepositionFraction) returns (rChannel, rStored)
+//@   noalias
+//@   safety C12
+//@   requires bankFullFlow > 0.00000001
+//@   requires upstreamMass.len == reachVolume.len && lateralMass.len == reachVolume.len && reachLocalMass.len == reachVolume.len && outflow.len == reachVolume.len
+//@   requires loadDownstream.len == reachVolume.len && loadToFloodplain.len == reachVolume.len && loadToChannelDeposition.len == reachVolume.len && floodplainDepositionFraction.len == reachVolume.len && channelDepositionFraction.len == reachVolume.len
+//@   requires forall(k, 0, reachVolume.len, upstreamMass.at(k) >= 0 && lateralMass.at(k) >= 0 && reachLocalMass.at(k) >= 0 && reachVolume.at(k) >= 0 && outflow.at(k) >= 0)
+//@   requires fineSedSettVelocityFlood >= 0 && floodPlainArea >= 0 && linkWidth > 0 && linkLength > 0 && linkSlope > 0 && bankHeight >= 0
+//@   requires propBankHeightForFineDep >= 0 && sedBulkDensity >= 0 && manningsN > 0 && fineSedSettVelocity > 0 && fineSedReMobVelocity > 0 && durationInSeconds > 0
+//@   requires 0 <= channelStoreFine && channelStoreFine <= fineMaxStorage(propBankHeightForFineDep, bankHeight, linkWidth, linkLength, sedBulkDensity) && totalStoredMass >= 0
+//@   assigns loadDownstream.cells, loadToFloodplain.cells, loadToChannelDeposition.cells, floodplainDepositionFraction.cells, channelDepositionFraction.cells
+//@   loop 0 invariant 0 <= i && i <= n
+//@   loop 0 invariant implies(i < n, upstreamMass.at(i) >= 0 && lateralMass.at(i) >= 0 && reachLocalMass.at(i) >= 0 && reachVolume.at(i) >= 0 && outflow.at(i) >= 0)
+//@   loop 0 invariant [C12.fine-store-bounds] 0 <= channelStoreFine && channelStoreFine <= fineMaxStorage(propBankHeightForFineDep, bankHeight, linkWidth, linkLength, sedBulkDensity) && totalStoredMass >= 0
+//@   loop 0 step [C12.fine-balance] implies(reachVolume.at(i) + outflow.at(i)*durationInSeconds > 0, pre(totalStoredMass) + (upstreamMass.at(i) + lateralMass.at(i) + reachLocalMass.at(i))*durationInSeconds == post(totalStoredMass) + loadDownstream.at(i)*durationInSeconds + loadToFloodplain.at(i)*durationInSeconds + loadToChannelDeposition.at(i))
+//@   loop 0 step [C12.fine-channel-store] post(channelStoreFine) == pre(channelStoreFine) + loadToChannelDeposition.at(i)
+//@   loop 0 step [C12.fine-remobilisation-bounded] loadToChannelDeposition.at(i) >= -pre(channelStoreFine)
+//@   loop 0 step [C12.fine-nonneg] loadDownstream.at(i) >= 0 && loadToFloodplain.at(i) >= 0
+
+// ---- C12: in-stream particulate nutrient ----
+
+//@ func instreamParticulateNutrient(incomingMassUpstream, incomingMassLateral, reachVolume, outflow, streamBankErosion, lateralSediment, floodplainDepositionFraction, channelDepositionFraction, initialInstreamStoredMass, initialChannelStoredMass, particulateNutrientConcentration, soilPercentFine, durationInSeconds, loadDeposited, loadFromStreambank, loadDownstream, loadToFloodplain) returns (rInstream, rChannel)
+//@   noalias
+//@   safety C12
+//@   requires incomingMassLateral.len == incomingMassUpstream.len && reachVolume.len == incomingMassUpstream.len && outflow.len == incomingMassUpstream.len && streamBankErosion.len == incomingMassUpstream.len && lateralSediment.len == incomingMassUpstream.len && floodplainDepositionFraction.len == incomingMassUpstream.len && channelDepositionFraction.len == incomingMassUpstream.len
+//@   requires loadDeposited.len == incomingMassUpstream.len && loadFromStreambank.len == incomingMassUpstream.len && loadDownstream.len == incomingMassUpstream.len && loadToFloodplain.len == incomingMassUpstream.len
+//@   requires forall(k, 0, incomingMassUpstream.len, incomingMassUpstream.at(k) >= 0 && incomingMassLateral.at(k) >= 0 && reachVolume.at(k) >= 0 && outflow.at(k) >= 0 && streamBankErosion.at(k) >= 0)
+//@   requires particulateNutrientConcentration >= 0 && 0 <= soilPercentFine && soilPercentFine <= 100 && durationInSeconds > 0 && initialInstreamStoredMass >= 0
+//@   assigns loadDeposited.cells, loadFromStreambank.cells, loadDownstream.cells, loadToFloodplain.cells
+//@   loop 0 invariant 0 <= i && i <= n
+//@   loop 0 invariant implies(i < n, incomingMassUpstream.at(i) >= 0 && incomingMassLateral.at(i) >= 0 && reachVolume.at(i) >= 0 && outflow.at(i) >= 0 && streamBankErosion.at(i) >= 0)
+//@   loop 0 invariant [C12.nutrient-nonneg] instreamStoredMass >= 0
+//@   loop 0 step [C12.nutrient-balance] implies(outflow.at(i)*durationInSeconds + reachVolume.at(i) >= 0.01, pre(instreamStoredMass) + (incomingMassUpstream.at(i) + incomingMassLateral.at(i) + loadFromStreambank.at(i))*durationInSeconds == post(instreamStoredMass) + loadDownstream.at(i)*durationInSeconds + loadToFloodplain.at(i)*durationInSeconds + loadDeposited.at(i))
+//@   loop 0 step [C12.nutrient-channel-store] implies(outflow.at(i)*durationInSeconds + reachVolume.at(i) >= 0.01, post(channelStoredMass) == pre(channelStoredMass) + loadDeposited.at(i))
+//@   loop 0 step [C12.nutrient-flush] implies(outflow.at(i)*durationInSeconds + reachVolume.at(i) < 0.01, post(instreamStoredMass) == 0 && loadDownstream.at(i) == 0)
+//@   loop 0 step [C12.nutrient-loads-nonneg] loadDownstream.at(i) >= 0 && loadToFloodplain.at(i) >= 0 && loadFromStreambank.at(i) >= 0
